@@ -330,14 +330,75 @@ func (g *gen) perTaskExpr(spec *Spec) {
 	if nt > 8 {
 		maxOps = 1
 	}
+	if g.k.Chance(1, 5) {
+		// compile churn: a server compiling, per request, one of some forty
+		// expressions (anything that caches compiled or analysed program
+		// text is filled, evicted and hit from several tasks at once)
+		if nt > 6 {
+			nt = g.k.Range(2, 6)
+			spec.Docs = spec.Docs[:nt]
+		}
+		np = g.w.Range(34, 44)
+		pool = pool[:0]
+		seen := map[string]bool{}
+		for len(pool) < np {
+			var p work.Program
+			if g.w.Chance(2, 3) {
+				p = work.Catalogue[g.w.Intn(len(work.Catalogue))]
+			} else {
+				p = g.pg.Program(g.safeFamily(), g.w.Range(0, 1))
+			}
+			if !seen[p.Text] {
+				seen[p.Text] = true
+				pool = append(pool, p)
+			}
+		}
+		maxOps = 12
+		spec.MaxEvents = 2000000 // only the auto-yield worker comes near it
+	}
+	if maxOps == 12 && g.k.Chance(1, 2) {
+		// cache thrash: task 0 walks cyclically over a working set of W
+		// expressions (every compile meets the entry that was used longest
+		// ago), the other tasks bring in newcomers at random moments
+		w := []int{8, 16, 32, 32, 34}[g.k.Intn(5)]
+		var ops []Op
+		for round := 0; round < 3; round++ {
+			for i := 0; i < w; i++ {
+				p := pool[i%np]
+				id := fmt.Sprintf("w%d_%d", round, i)
+				ops = append(ops, Op{Kind: "compile", Expr: id, Text: p.Text, Family: p.Family, Exts: true})
+				if round == 2 && g.w.Chance(1, 2) {
+					ops = append(ops, Op{Kind: "eval", Expr: id, Doc: "d0"})
+				}
+			}
+		}
+		spec.Tasks = append(spec.Tasks, ops)
+		for t := 1; t < nt; t++ {
+			var ops []Op
+			for i, n := 0, g.w.Range(3, 8); i < n; i++ {
+				p := pool[(w+g.w.Intn(np-w+1))%np]
+				id := fmt.Sprintf("p%d", i)
+				ops = append(ops, Op{Kind: "compile", Expr: id, Text: p.Text, Family: p.Family, Exts: true},
+					Op{Kind: "eval", Expr: id, Doc: fmt.Sprintf("d%d", t)})
+			}
+			spec.Tasks = append(spec.Tasks, ops)
+		}
+		return
+	}
 	for t := 0; t < nt; t++ {
 		var ops []Op
 		n := g.w.Range(1, maxOps)
+		if maxOps == 12 {
+			n = g.w.Range(4, 8)
+		}
 		for i := 0; i < n; i++ {
 			p := pool[g.w.Intn(np)]
 			id := fmt.Sprintf("p%d", i)
 			ops = append(ops, Op{Kind: "compile", Expr: id, Text: p.Text, Family: p.Family, Exts: true})
 			reps := g.w.Range(1, 2)
+			if maxOps == 12 {
+				reps = 1
+			}
 			for k := 0; k < reps; k++ {
 				op := Op{Kind: "eval", Expr: id, Doc: fmt.Sprintf("d%d", t)}
 				if work.HasExt(p.Text) && g.f.Chance(1, 3) {
